@@ -77,6 +77,9 @@ pub fn roundtrip(prop: &str, compressed: bool, frame: &[u8], meta: Option<&Meta>
         Dec::Got(p, n) => {
             if n != frame.len() { st.fail(format!("[{prop}] decoding consumed {n} of {} bytes", frame.len()), id.clone()); }
             let dbg = format!("{:?}", p);
+            // the same frame with another frame already behind it in the receive buffer: same packet, same bytes consumed
+            { let mut two = frame.to_vec(); two.extend_from_slice(if compressed { &[1u8, 3, 2, 3] } else { &[4u8, 3, 2, 3] });
+              match decode_buf(compressed, &two) { Dec::Got(q, m) => { if m != n || format!("{:?}", q) != dbg { st.fail(format!("[{prop}] with a second frame behind it in the buffer the frame decodes differently: {} ({} bytes consumed)", format!("{:?}", q).chars().take(120).collect::<String>(), m), id.clone()); } }, d => st.fail(format!("[{prop}] with a second frame behind it in the buffer the frame no longer decodes: {}", cls_string(&d)), id.clone()) } }
             match encode_p(compressed, &p) {
                 Enc::Panic => { st.fail(format!("[{prop}] a packet obtained by decoding makes the encoder panic: {}", dbg.chars().take(120).collect::<String>()), id); "enc:P".into() },
                 Enc::Err => { if let Some(m) = meta { if m.canonical { st.fail(format!("[{prop}] a canonical frame decodes to a packet the encoder refuses"), id); } } "enc:E".into() },
@@ -285,6 +288,62 @@ fn text_slot(k: &Kind, idx: usize) -> Option<(usize, usize, Option<usize>)> {
     None
 }
 
+/// packets built through the typed API rather than by decoding (values no frame decodes to, histories of insert / remove / clear):
+/// what is encoded must be one well-formed frame whose fixed-width fields sit where the layout puts them and whose count byte is
+/// the number of elements that follow; nothing may panic
+pub fn typed_api_checks(prop: &str, a: &Args, st: &mut Stats) {
+    use insim::{identifiers::{ConnectionId, RequestId}, insim::{Ipb, Mal, Ver}};
+    use insim_core::{game_version::GameVersion, vehicle::Vehicle};
+    let mut rng = Rng::new(a.seed ^ 0x7A9E);
+    // IS_VER: Version[8] Product[6] InSimVer Spare, whatever the version VALUE is (letters outside ASCII, huge numbers, long revisions)
+    for major in [0.7f32, 0.04, 12.5, 1.0e10, 0.0] { for minor in ['F', 'z', '\u{e9}', '\u{ff26}', '\u{4e2d}'] { for patch in [None, Some(0usize), Some(12), Some(123_456_789)] {
+        let v = Ver { reqi: RequestId(1), version: GameVersion { major, minor, patch }, product: "DEMO".into(), insimver: 9 };
+        for compressed in [true, false] {
+            st.evaluations += 1;
+            let id = format!("ver {} {} {:x} {}", mode_tag(compressed), major.to_bits(), minor as u32, patch.map(|p| p.to_string()).unwrap_or("none".into()));
+            match encode_p(compressed, &Packet::Ver(v.clone())) {
+                Enc::Ok(b) => {
+                    if let Some(w) = wellformed(compressed, &b, 2) { st.fail(format!("[{prop}] IS_VER with version {:?}: {w}", v.version), id.clone()); }
+                    if b.len() != 20 || &b[12..16] != b"DEMO" || b[16] != 0 || b[17] != 0 || b[18] != 9 { st.fail(format!("[{prop}] IS_VER with version {:?}: the 8-byte version field pushes the following fields: frame {}", v.version, hex(&b)), id.clone()); }
+                    // what was emitted must be THIS version (not a truncated or otherwise different one)
+                    match decode_buf(compressed, &b) { Dec::Got(Packet::Ver(v2), _) => if v2.version != v.version && !(v2.version.major == v.version.major && v2.version.minor == v.version.minor.to_ascii_uppercase() && v2.version.patch.unwrap_or(0) == v.version.patch.unwrap_or(0)) { st.fail(format!("[{prop}] IS_VER with version {:?} is emitted as the different version {:?} (text {:?})", v.version, v2.version, String::from_utf8_lossy(&b[4..12])), id.clone()); }, Dec::Got(..) => {}, d => st.fail(format!("[{prop}] IS_VER with version {:?}: the encoder's own frame is not decoded: {}", v.version, cls_string(&d)), id.clone()) }
+                },
+                Enc::Err => {},
+                Enc::Panic => st.fail(format!("[{prop}] IS_VER with version {:?} makes the encoder panic", v.version), id.clone()),
+            }
+        }
+    } } }
+    // IS_MAL / IS_IPB: any history of insert / remove / clear, then encode: NumM / NumB = the number of 4-byte entries that follow
+    for rep in 0..(if a.thorough() { 4000 } else { 400 }) {
+        let mut mal = Mal::default(); mal.reqi = RequestId(9); mal.ucid = ConnectionId(12);
+        let mut ipb = Ipb::default(); ipb.reqi = RequestId(9);
+        let mut ids: Vec<u32> = vec![]; let mut hist = String::new();
+        for _ in 0..rng.range(1, 12) {
+            match rng.below(8) {
+                0..=4 => { let id = 0x0100_0000 | (rng.next() as u32 & 0x00ff_ffff) | ((rng.below(200) as u32 + 1) << 24); ids.push(id); let _ = mal.insert(Vehicle::Mod(id)); let _ = ipb.insert(std::net::Ipv4Addr::from(id)); hist.push('i'); },
+                5 | 6 => { if !ids.is_empty() { let k = rng.below(ids.len() as u64) as usize; let id = ids.remove(k); let _ = mal.remove(&Vehicle::Mod(id)); let _ = ipb.remove(&std::net::Ipv4Addr::from(id)); hist.push('r'); } },
+                _ => { mal.clear(); ipb.clear(); ids.clear(); hist.push('c'); },
+            }
+        }
+        ids.sort(); ids.dedup();
+        for (name, p, cnt_off, first) in [("IS_MAL", Packet::Mal(mal.clone()), 3usize, 8usize), ("IS_IPB", Packet::Ipb(ipb.clone()), 3, 8)] { for compressed in [true, false] {
+            st.evaluations += 1;
+            let id = format!("sethist {name} {} {} {hist}", mode_tag(compressed), a.seed ^ rep);
+            match encode_p(compressed, &p) {
+                Enc::Ok(b) => {
+                    if let Some(w) = wellformed(compressed, &b, b[1]) { st.fail(format!("[{prop}] {name} after the history {hist}: {w}"), id.clone()); }
+                    let entries = (b.len() - first) / 4;
+                    if b[cnt_off] as usize != entries || entries != ids.len() { st.fail(format!("[{prop}] {name} after the history {hist} ({} entries in the set): count byte {} but {} entries follow", ids.len(), b[cnt_off], entries), id.clone()); }
+                    if !matches!(decode_buf(compressed, &b), Dec::Got(..)) { st.fail(format!("[{prop}] {name} after the history {hist}: the encoder's own frame does not decode"), id.clone()); }
+                },
+                Enc::Err => st.fail(format!("[{prop}] {name} with {} entries after the history {hist} is refused", ids.len()), id.clone()),
+                Enc::Panic => st.fail(format!("[{prop}] {name} after the history {hist} makes the encoder panic"), id.clone()),
+            }
+        } }
+    }
+    st.bump("typed-API packets (IS_VER version values, IS_MAL / IS_IPB insert-remove-clear histories)");
+}
+
 /// packets of every kind, encodable and not (too many elements: refused after part of the packet was written; a duration beyond
 /// its field: refused mid-packet), in a fixed order
 fn codec_pool() -> Vec<Packet> {
@@ -298,6 +357,10 @@ fn codec_pool() -> Vec<Packet> {
 }
 
 pub fn run_c03(a: &Args) {
+    if let Some(r) = &a.replay { if r.starts_with("ver ") || r.starts_with("sethist ") {
+        let mut st = Stats::default(); typed_api_checks("C03", a, &mut st);
+        match st.failures.iter().find(|f| f.2 == *r) { Some(f) => { println!("FAIL {}", f.1); std::process::exit(1) }, None => { println!("PASS (typed-API case `{r}` holds)"); std::process::exit(0) } }
+    } }
     let mut rng = Rng::new(a.seed);
     let defaults = crate::gen::kinds::default_packets();
     let run_vec = |compressed: bool, ki: usize, k: usize, st: &mut Stats| -> Option<(String, String)> {
@@ -369,6 +432,11 @@ pub fn run_c03(a: &Args) {
                     if let Some((c, i)) = run_text(compressed, ki, idx, &text, &mut st) { st.evaluations += 1; if len > 0 { st.distinct_nontrivial += 1; } st.bump(&format!("text:{}", i.split(':').next().unwrap())); out.case(&c, &i); }
                     len += if len + 8 >= n && len <= n + 8 { 1 } else { step };
                 }
+                // double-byte characters, markers and carets starting at every offset around the end of the field (the cut is at a byte offset)
+                for seq in ["\u{65e5}\u{672c}", "\u{448}\u{65e5}", "^^", "^J", "\u{ff8f}\u{ff8f}", "\u{e9}\u{65e5}"] { for p0 in n.saturating_sub(6)..=n + 2 {
+                    let mut text: String = (0..p0).map(|i| (b'a' + (i % 26) as u8) as char).collect(); text.push_str(seq); text.push_str("xyz");
+                    let _ = run_text(compressed, ki, idx, &text, &mut st); st.evaluations += 1; st.bump("text:multi-byte sequence straddling the end of the field");
+                } }
             }
         }
     }
@@ -380,6 +448,7 @@ pub fn run_c03(a: &Args) {
         }
     } } }
     // (replay: `codecpair <mode> <i> <j>` = pool[i] then pool[j] on one codec)
+    typed_api_checks("C03", a, &mut st);
     // one long-lived codec, as a connection has: the frame of a packet must not depend on what was encoded (or refused) before it.
     // Sequences of refused and accepted packets of every kind on ONE codec, each result compared with a codec created for that call.
     for compressed in [true, false] {
@@ -407,6 +476,10 @@ pub fn run_c03(a: &Args) {
 
 /// C11: the bytes of each text field inside the real encoded frame
 pub fn run_c11(a: &Args) {
+    if let Some(r) = &a.replay { if r.starts_with("ver ") || r.starts_with("sethist ") {
+        let mut st = Stats::default(); typed_api_checks("C11", a, &mut st);
+        match st.failures.iter().find(|f| f.2 == *r) { Some(f) => { println!("FAIL {}", f.1); std::process::exit(1) }, None => { println!("PASS (typed-API case `{r}` holds)"); std::process::exit(0) } }
+    } }
     use insim_core::string::codepages::to_lossy_bytes;
     let defaults = crate::gen::kinds::default_packets();
     const MUST_TERMINATE: [&str; 4] = ["Mst", "Msx", "Msl", "Mtc"];
@@ -539,6 +612,7 @@ pub fn run_c11(a: &Args) {
         } }
         st.add("frames with bytes after the first NUL of a text slot (all other fields random)", dirty_cases);
     }
+    typed_api_checks("C11", a, &mut st);
     st.rule = "every text field of every text-bearing kind (widths 6,8,16,24,32,64,96,128,240) on the real encoder: ASCII texts of lengths 0..2N (every length near N, all residues mod 4) and multi-byte / multi-codepage texts; oracle: the field's bytes inside the frame are the encoded text truncated to N and NUL-padded (fixed) / NUL-padded to a multiple of 4 within the maximum (variable), MST/MSX/MSL/MTC end in NUL, decoding returns the text up to the first NUL".into();
     st.sample("Mst msg = 64 x 'A' -> field holds 64 x 0x41, no terminating NUL (known finding)".into());
     out.finish(&st);
